@@ -303,10 +303,13 @@ func (i *ZodIntersection[T, R]) PrefaultFunc(fn func() T) *ZodIntersection[T, R]
 	return i.withInternals(in)
 }
 
-// Meta stores metadata for this schema.
+// Meta returns a new schema with the given metadata stored in the global
+// registry; the receiver and its registry entry are unchanged.
 func (i *ZodIntersection[T, R]) Meta(meta core.GlobalMeta) *ZodIntersection[T, R] {
-	core.GlobalRegistry.Add(i, meta)
-	return i
+	in := i.internals.Clone()
+	clone := i.withInternals(in)
+	core.GlobalRegistry.Add(clone, meta)
+	return clone
 }
 
 // Describe registers a description in the global registry.
